@@ -92,6 +92,11 @@ pub struct Layout {
     pub src_form: String,
     #[serde(default)]
     pub target_form: String,
+    /// paths below the source directory (a file, or a directory prefix) that are materialised
+    /// as symbolic links into `<project>/lnkstore/` whenever a version has them: a linked
+    /// .mamba file, or a file below a linked directory, is a project member like any other
+    #[serde(default)]
+    pub links: Vec<String>,
 }
 
 #[derive(Clone, Debug, Serialize, Deserialize, PartialEq, Eq)]
@@ -211,7 +216,14 @@ fn copy_tree(from: &str, to: &str) {
     }
     for (rel, n) in &t {
         if !n.dir {
-            write_file(to, rel, &n.data);
+            let from_p = Path::new(from).join(rel);
+            if std::fs::symlink_metadata(&from_p).map(|m| m.file_type().is_symlink()).unwrap_or(false) {
+                if let Ok(target) = std::fs::read_link(&from_p) {
+                    let _ = std::os::unix::fs::symlink(target, Path::new(to).join(rel));
+                }
+            } else {
+                write_file(to, rel, &n.data);
+            }
         }
     }
 }
@@ -223,6 +235,7 @@ fn norm(b: &[u8]) -> Vec<u8> {
 
 #[derive(Clone, Debug, Default)]
 pub struct Stats {
+    pub linked_sources: u64,
     pub steps: u64,
     pub steps_ok: u64,
     pub steps_err: u64,
@@ -283,6 +296,7 @@ impl Stats {
         self.overwrote_longer += o.overwrote_longer;
         self.deleted_in_target_tolerated += o.deleted_in_target_tolerated;
         self.cli_runs += o.cli_runs;
+        self.linked_sources += o.linked_sources;
         self.cli_skipped += o.cli_skipped;
         self.reference_runs += o.reference_runs;
         self.reference_panics += o.reference_panics;
@@ -469,6 +483,21 @@ impl HistExec {
                 for f in files.iter().chain(bystanders.iter()) {
                     write_file(&src, &f.path, f.text.as_bytes());
                 }
+                let store = format!("{}/lnkstore", self.proj());
+                let _ = std::fs::remove_dir_all(&store);
+                if src_dir_name(&self.layout) != "." {
+                    for l in &self.layout.links {
+                        let p = Path::new(&src).join(l);
+                        if std::fs::symlink_metadata(&p).is_ok() {
+                            let dest = Path::new(&store).join(l);
+                            std::fs::create_dir_all(dest.parent().unwrap()).expect("link store");
+                            std::fs::rename(&p, &dest).expect("move into link store");
+                            let ups = "../".repeat(Path::new(l).components().count());
+                            std::os::unix::fs::symlink(format!("{ups}lnkstore/{l}"), &p).expect("symlink in the source tree");
+                            self.stats.linked_sources += 1;
+                        }
+                    }
+                }
                 self.has_project = true;
                 for f in files {
                     self.ever_sources.insert(f.path.clone());
@@ -531,6 +560,8 @@ impl HistExec {
                 "abs_outside" => format!("{root}/elsewhere/{name}"),
                 "slash" => format!("{name}/"),
                 "dotdot" => format!("../{}/{name}", self.root_name),
+                // through a symbolic link to the project directory ($ROOT/lnk -> <project>)
+                "symlink" => format!("../lnk/{name}"),
                 _ => name.to_string(),
             }
         };
@@ -586,6 +617,13 @@ impl HistExec {
     fn transpile(&mut self, op_index: usize, hash_seed: u64, readdir_seed: u64, plan: &[PlanItem], crash_at: Option<u64>, disk_budget: Option<i64>, cli: bool) {
         let step = op_index;
         self.step_no += 1;
+        let via_link = self.layout.src_form == "symlink" || self.layout.target_form == "symlink";
+        if via_link {
+            let l = format!("{}/lnk", self.root);
+            if std::fs::symlink_metadata(&l).is_err() {
+                std::os::unix::fs::symlink(&self.root_name, &l).expect("symlink to the project directory");
+            }
+        }
         let before = snapshot(&self.root);
         let files = input_files(&self.version, &self.layout);
         let mut r = reference(&files, self.annotate, &mut self.refs, &mut self.stats);
@@ -774,7 +812,12 @@ impl HistExec {
                 } else if res.outcome == "ok" {
                     step_viol.extend(self.judge_ok(step, &before, &after, &files, &r, &out_rel));
                     let expect_path = format!("$ROOT/{out_rel}");
-                    if lexical_norm(&res.ok_path) != expect_path {
+                    let got = lexical_norm(&res.ok_path);
+                    let got = match got.strip_prefix("$ROOT/lnk/") {
+                        Some(rest) if via_link => format!("$ROOT/{}/{rest}", self.root_name),
+                        _ => got,
+                    };
+                    if got != expect_path {
                         step_viol.push(Viol::new("ok_but_tree_differs_extra", step, format!("returned output directory {} instead of {}", res.ok_path, expect_path)));
                     }
                 } else if res.outcome == "err" {
